@@ -183,7 +183,9 @@ RoundKnown(s, h, r) == <<h, r>> \in DOMAIN s.round
 PutRound(s, h, r, rec) == [s EXCEPT !.round = (<<h, r>> :> rec) @@ @]
 
 InitStores == [nhr |-> NoNHR, round |-> [x \in {} |-> EmptyRound], replayed |-> [x \in {} |-> {}],
-               hdr |-> [x \in {} |-> NULL], vals |-> {}]
+               hdr |-> [x \in {} |-> NULL],
+               \* key sets the validator store already holds (written by the state machine after earlier set changes)
+               vals |-> {v \in DOMAIN ValsetDef : ValsetDef[v].stored}]
 ReplayedAt(s, h) == IF h \in DOMAIN s.replayed THEN s.replayed[h] ELSE {}
 
 \* every store write appends the post-write store state to wlog: a crash may fall after any of them
@@ -345,7 +347,11 @@ HandleFutureVote(x, kind, msg) ==
           allEntries == UNION {msg.proofs[t] : t \in DOMAIN msg.proofs}
           \* MergeSparse treats a key id that is not two bytes, or out of range, as an invalid signature
           P(e) == e.pos
+          \* the signatures are made by the set the message names (an unknown hash: the genesis set) and are
+          \* verified under the keys of v: a foreign set's signature is invalid unless the key at that position coincides
+          signSet == IF KnownVS(msg.pkh) THEN msg.pkh ELSE GenesisVS
           bad == \E e \in allEntries : e.cls # "ok" \/ e.pos < 1 \/ e.pos > n
+                                      \/ (e.pos >= 1 /\ e.pos <= n /\ (e.pos > NPos(signSet) \/ Keys(signSet)[e.pos] # Keys(v)[e.pos]))
           merged == [t \in DOMAIN cur \cup DOMAIN msg.proofs |->
                        (IF t \in DOMAIN cur THEN cur[t] ELSE {})
                        \cup (IF t \in DOMAIN msg.proofs THEN {P(e) : e \in msg.proofs[t]} ELSE {})]
